@@ -7,7 +7,7 @@
    `pl (pts j t)` is that column read as a piecewise-linear function of temperature (end values outside the table).
    `WF tol t` = the table is not empty and every row is more than tol colder than the row above it.
    All theorems hold for EVERY table of any size and EVERY request list (induction; no size bound). *)
-From OP Require Import gen.Consts model.Base model.Insert proofs.BaseFacts proofs.Insert proofs.InsertCurve proofs.InsertSeq.
+From OP Require Import gen.Consts model.Base model.Insert proofs.BaseFacts proofs.Insert proofs.InsertCurve proofs.InsertSeq proofs.InsertPL proofs.ComposeInsertCalls.
 From Coq Require Import Permutation.
 Local Open Scope Q_scope.
 
@@ -116,7 +116,9 @@ Print Assumptions C08_sequence.
    greedy from the hottest request of a call, so which member of a cluster survives depends on what else is in the same
    call, and a request placed between a previously added top row and the old first row copies the old first row's heat
    capacity instead of 0.  Proved part: inside one call the order of pairwise different requests is irrelevant
-   (in particular of requests more than 2*tol apart). *)
+   (in particular of requests more than 2*tol apart).  ACROSS calls the strongest true statements are at the end of this
+   file: C08_any_split_same_rows / C08_calls_vs_one_call (under a spacing condition that C08_split_needs_spacing_refuted
+   shows is needed) and C08_histories_agree_on_interpolated_cells (no condition). *)
 Theorem C08_order_irrelevant_partial :
   forall t r1 r2, Permutation r1 r2 -> distinct r1 -> insert t r1 = insert t r2.
 Proof. exact (insert_perm tol). Qed.
@@ -152,3 +154,78 @@ Theorem C08_example_call :
   /\ map (hcell 0) (fst r) = [Some 130; Some 130; Some 50; Some 40; Some 10; Some 0; Some 0; Some 0].
 Proof. exact ex_insert. Qed.
 Print Assumptions C08_example_call.
+
+(* ------------------------------------------------------------------ across calls (proofs/ComposeInsertCalls.v)
+   `spaced tol l`: the members of l are pairwise more than tol apart.  `concat reqss` = all requests of a history in one list.
+   `far tol t x` = x is more than tol away from every row of t (requests that are not are dropped by every call). *)
+
+(* ANY split of the requests into calls, in any order, gives the same temperature column and the same total count as ONE
+   call with all of them -- provided the requests that are not within tol of an original row are pairwise more than tol
+   apart.  (No condition relative to the original rows: such requests are dropped either way.) *)
+Theorem C08_any_split_same_rows :
+  forall t reqss, WF tol t -> spaced tol (filter (far tol t) (concat reqss)) ->
+  map rT (fst (run t reqss)) = map rT (fst (insert t (concat reqss)))
+  /\ snd (run t reqss) = snd (insert t (concat reqss)).
+Proof. exact (run_T_one_call tol tol_nonneg). Qed.
+Print Assumptions C08_any_split_same_rows.
+
+(* the spacing condition is needed: two requests 2.4e-7 apart -- in two calls the first call's request survives, in one call
+   the hotter one *)
+Theorem C08_split_needs_spacing_refuted :
+  map rT (fst (run ex_t2 [[80]; [80 + (1 # 4194304)]])) = [100; 80; 60]
+  /\ map rT (fst (insert ex_t2 [80; 80 + (1 # 4194304)])) = [100; 335544321 # 4194304; 60].
+Proof. exact split_needs_spacing. Qed.
+Print Assumptions C08_split_needs_spacing_refuted.
+
+(* with NO side condition: two arbitrary histories A and B from the same table agree on every interpolated cell of rows that
+   have the same temperature: equal numbers (==) in every populated column, NaN in every all-NaN column *)
+Theorem C08_histories_agree_on_interpolated_cells :
+  forall j t0 A B rA rB, WF tol t0 ->
+  In rA (fst (run t0 A)) -> In rB (fst (run t0 B)) -> rT rA = rT rB ->
+  (populated j t0 -> exists qa qb, hcell j rA = Some qa /\ hcell j rB = Some qb /\ qa == qb)
+  /\ (allnan j t0 -> hcell j rA = None /\ hcell j rB = None).
+Proof. exact (histories_agree_on_cells tol tol_nonneg). Qed.
+Print Assumptions C08_histories_agree_on_interpolated_cells.
+
+(* together: any split into calls against one call -- the two tables have the same rows (temperatures), position by position,
+   with == cells in every populated interpolated column and NaN in every all-NaN one (cells_agree), and the same count.
+   What may differ is confined to the heat-capacity / other columns (C08_order_across_calls_refuted) and, through them,
+   the enthalpy-change columns, and to the width of the first row (below). *)
+Theorem C08_calls_vs_one_call :
+  forall t reqss, WF tol t -> spaced tol (filter (far tol t) (concat reqss)) ->
+  Forall2 (cells_agree t) (fst (run t reqss)) (fst (insert t (concat reqss)))
+  /\ snd (run t reqss) = snd (insert t (concat reqss)).
+Proof. exact (calls_vs_one_call tol tol_nonneg). Qed.
+Print Assumptions C08_calls_vs_one_call.
+
+(* the first row's width after ONE call on a table r0 :: rs, by cases (first_row_cases):
+   A nothing added above or directly below the first row: it keeps temperature and width (whatever the width was);
+   B exactly one row added above: it is the new first row, width = its temperature - the old first temperature;
+   C two or more rows added above: the new first row has width 0;
+   D none above, a row added directly below (rs not empty): width = first temperature - new second temperature. *)
+Theorem C08_first_row_width_one_call :
+  forall r0 rs reqs, first_row_cases r0 rs (fst (insert (r0 :: rs) reqs)).
+Proof. exact (insert_first_row_cases tol tol_nonneg). Qed.
+Print Assumptions C08_first_row_width_one_call.
+
+(* ... and after ANY history: the width of the first row is the width the ORIGINAL first row carried (never recomputed), or 0,
+   or the distance from the first row to the row directly below it *)
+Theorem C08_first_row_width_any_history :
+  forall t0 reqss,
+  match fst (run t0 reqss) with
+  | [] => True
+  | r0 :: rs => rDT r0 = match t0 with a :: _ => rDT a | [] => None end \/ rDT r0 = Some 0
+                \/ (exists r1 rest d, rs = r1 :: rest /\ rDT r0 = Some d /\ d == rT r0 - rT r1)
+  end.
+Proof. exact (history_first_width tol tol_nonneg). Qed.
+Print Assumptions C08_first_row_width_any_history.
+
+(* all cases occur: a table whose first row carries the width 7 *)
+Theorem C08_first_row_width_examples :
+  map rDT (fst (insert ex_t3 [50; 30])) = [Some 7; Some 40; Some 10; Some 20]
+  /\ map rDT (fst (insert ex_t3 [120])) = [Some 20; Some 20; Some 40]
+  /\ map rDT (fst (insert ex_t3 [120; 130])) = [Some 0; Some 10; Some 20; Some 40]
+  /\ map rDT (fst (insert ex_t3 [80; 90])) = [Some 10; Some 10; Some 10; Some 20]
+  /\ map rDT (fst (run ex_t3 [[90]; [95]; [20]])) = [Some 5; Some 5; Some 5; Some 30; Some 40].
+Proof. exact first_width_witnesses. Qed.
+Print Assumptions C08_first_row_width_examples.
